@@ -152,6 +152,7 @@ func runC05(c *Ctx) {
 	add("LOOP3", loop3Family(false), "", profP0, 6)
 	add("LOOK3", look3Family(), "", profP0, 5)
 	add("ALTREP", altRepFamily(), "", profP0, 5)
+	add("SETOVL", setOvlFamily(), "", profP0, 5)
 	add("LOOPALT", loopAltFamily(), "", profP0, 5)
 	add("BUMP", bumpFamily(), "", profP0, 5)
 	add("LOOP", loopF, "", profP0, 4)
